@@ -251,7 +251,175 @@ def bulk_exec(kind, with_state):
     return viol
 
 
+# ---- recovery: a fault during one forced checkout, then the same call again -------------------------------
+
+def recovery_exec(cfg):
+    """cfg: kind, link, state, t0, t1, mut, fault, victim[, wipe].
+
+    rm-refused: removing one workspace path fails (PermissionError) during the forced checkout, then is permitted;
+    object-missing: one of the target's objects is not in the cache during the first attempt (then restored; the
+    user may wipe the partial workspace in between); cache-chmod-refused: the cache's objects are writable and its
+    file system refuses chmod (read-only, Samba) - for the whole run.  A call that returns normally must have
+    produced the target; once the fault is gone the usual sequence must hold."""
+    import errno
+    import shutil
+
+    from dvc_data.hashfile.checkout import checkout
+    from dvc_data.hashfile.state import State
+
+    from ..lab import RmFaultFS, put_raw
+
+    viol = []
+    info = {"first": None}
+    fault = cfg["fault"]
+    o_chmod = os.chmod
+    with World() as w:
+        state = State(root_dir=w.root, tmp_dir=w.p("tmp")) if cfg["state"] else None
+        try:
+            fs_ = RmFaultFS()
+            kw = {"state": state} if state is not None else {}
+            odb = make_odb(cfg["kind"], w.p("cache"), fs=fs_, **kw)
+            fill_cache(odb, ["A", "B", "N", "P"], extra=["x", "y", "e"])
+            odb.cache_types = [cfg["link"]]
+            ws = w.p("ws")
+            checkout(ws, fs_, load_obj(odb, cfg["t0"]), odb, force=True, state=state)
+            if cfg["mut"] == "edit-a-uncached":
+                pa = os.path.join(ws, "a")
+                os.unlink(pa)
+                write_file(pa, UNCACHED)
+            cache0 = {k: v[0] for k, v in store_snapshot(odb.path).items() if isinstance(k, str)}
+            want = want_files(cfg["t1"])
+            restore = None
+            if fault == "rm-refused":
+                fs_.deny = frozenset([os.path.join(ws, *cfg["victim"].split("/"))])
+            elif fault == "object-missing":
+                vp = odb.oid_to_path(MD5[cfg["victim"]])
+                os.chmod(vp, 0o644)
+                os.unlink(vp)
+                restore = lambda: put_raw(odb, MD5[cfg["victim"]], CONTENTS[cfg["victim"]])  # noqa: E731
+            elif fault == "cache-chmod-refused":
+                for root_, _d, fns in os.walk(odb.path):
+                    for fn in fns:
+                        o_chmod(os.path.join(root_, fn), 0o644)
+
+                def chmod_(path, mode, *a, **k):
+                    if isinstance(path, str) and path.startswith(odb.path + os.sep):
+                        info["chmod_refused"] = info.get("chmod_refused", 0) + 1
+                        raise OSError(errno.EROFS, "injected: read-only file system", path)
+                    return o_chmod(path, mode, *a, **k)
+
+                os.chmod = chmod_
+            if fault != "cache-chmod-refused":
+                try:
+                    checkout(ws, fs_, load_obj(odb, cfg["t1"]), odb, force=True, state=state)
+                    info["first"] = "ok"
+                except Exception as e:  # noqa: BLE001
+                    info["first"] = type(e).__name__
+                info["denied"] = fs_.denied
+                if info["first"] == "ok" and (walk_files(ws) if os.path.lexists(ws) else {}) != want:
+                    viol.append(("checkout-returned-normally-but-workspace-is-not-the-target",
+                                 f"{cfg}: {sorted(walk_files(ws))} instead of {sorted(want)}"))
+                fs_.deny = frozenset()
+                if restore:
+                    restore()
+                if cfg.get("wipe") and os.path.lexists(ws):
+                    # the user wipes the partial result before trying again
+                    if os.path.isdir(ws) and not os.path.islink(ws):
+                        shutil.rmtree(ws)
+                    else:
+                        os.unlink(ws)
+            # the usual sequence: forced checkout, second checkout, relinking checkout
+            try:
+                checkout(ws, fs_, load_obj(odb, cfg["t1"]), odb, force=True, state=state)
+            except Exception as e:  # noqa: BLE001
+                viol.append((f"forced-checkout-raises-{type(e).__name__}", f"{cfg} first={info['first']}: {e!r}"))
+                return viol, info
+            got = walk_files(ws)
+            if got != want:
+                lost = sorted(set(want) - set(got))
+                extra = sorted(set(got) - set(want))
+                kind = "missing-file" if lost else ("leftover-file" if extra else "wrong-bytes")
+                viol.append((f"forced-checkout-not-exact/{kind}", f"lost={lost} extra={extra} first={info['first']}"))
+            r2 = checkout(ws, fs_, load_obj(odb, cfg["t1"]), odb, force=True, state=state)
+            if r2:
+                viol.append(("second-checkout-reports-work", f"returned {r2!r}"))
+            try:
+                checkout(ws, fs_, load_obj(odb, cfg["t1"]), odb, force=True, relink=True, state=state)
+            except Exception as e:  # noqa: BLE001
+                viol.append((f"relink-checkout-raises-{type(e).__name__}", repr(e)))
+                return viol, info
+            if walk_files(ws) != want:
+                viol.append(("relink-changed-content", ""))
+            for rel, c in (TREES[cfg["t1"]].items() if cfg["t1"] in TREES else [("", cfg["t1"])]):
+                pth = os.path.join(ws, *rel.split("/")) if rel else ws
+                k = link_kind(pth, odb, MD5[c], CONTENTS[c])
+                if not (k == cfg["link"] or (cfg["link"] == "hardlink" and CONTENTS[c] == b"" and k == "copy")):
+                    viol.append((f"wrong-link-type-after-relink/{k}-instead-of-{cfg['link']}", f"{rel}"))
+            cache1 = {k: v[0] for k, v in store_snapshot(odb.path).items() if isinstance(k, str)}
+            if cache1 != cache0:
+                viol.append(("cache-object-bytes-changed", ""))
+        finally:
+            os.chmod = o_chmod
+            if state is not None:
+                state.close()
+    return viol, info
+
+
+def recovery_cfgs(kind, link, st):
+    out = []
+    for t0, t1, mut in (("A", "B", "none"), ("B", "A", "none"), ("A", "A", "edit-a-uncached"), ("N", "P", "none"),
+                        ("x", "y", "none")):
+        base = {"kind": kind, "link": link, "state": st, "t0": t0, "t1": t1, "mut": mut}
+        single = t0 not in TREES
+        prior = {} if single else dict(TREES[t0])
+        tgt = {} if single else TREES[t1]
+        if single:
+            victims = [""]
+        else:
+            victims = sorted(r for r in prior if tgt.get(r) != prior[r] or (r == "a" and mut != "none"))
+        for v in victims:
+            out.append(dict(base, fault="rm-refused", victim=v))
+        for c in sorted(set(tgt.values()) if not single else {t1}):
+            for wipe in (False, True):
+                out.append(dict(base, fault="object-missing", victim=c, wipe=wipe))
+        if kind == "local":
+            out.append(dict(base, fault="cache-chmod-refused", victim=""))
+    return out
+
+
+def recovery_case(case):
+    res = {"n": 0, "trans": 0, "states": [], "outcomes": set(), "nontrivial": set(), "viol": [], "vac": {}}
+    sigs = set()
+    for cfg in recovery_cfgs(case["kind"], case["link"], case["state"]):
+        viol, info = recovery_exec(cfg)
+        res["n"] += 1
+        res["trans"] += 4
+        d = digest_obj(cfg)
+        res["states"].append(d)
+        res["nontrivial"].add(d)
+        v = res["vac"]
+        v["recovery_runs"] = v.get("recovery_runs", 0) + 1
+        if info.get("denied"):
+            v["refused_removals"] = v.get("refused_removals", 0) + 1
+        if cfg["fault"] == "object-missing" and info["first"] not in (None, "ok"):
+            v["failed_first_attempts"] = v.get("failed_first_attempts", 0) + 1
+        if info.get("chmod_refused"):
+            v["chmod_refusals"] = v.get("chmod_refusals", 0) + 1
+        res["outcomes"].add(repr((info["first"], sorted(x[0] for x in viol))))
+        for sig, detail in viol:
+            sig = f"{sig}/{cfg['fault']}" + ("/workspace-wiped" if cfg.get("wipe") else "")
+            if sig not in sigs:
+                sigs.add(sig)
+                res["viol"].append((sig, detail, dict(cfg, recovery=True)))
+    res["outcomes"] = sorted(res["outcomes"])
+    res["nontrivial"] = sorted(res["nontrivial"])
+    res["sample"] = dict(case)
+    return res
+
+
 def run_case(case):
+    if case.get("part") == "recovery":
+        return recovery_case(case)
     res = {"n": 0, "trans": 0, "states": [], "outcomes": set(), "nontrivial": set(), "viol": [],
            "vac": {"relinked_to_hardlink": 0, "relinked_to_symlink": 0, "other_workspace_runs": 0,
                    "link_records_checked": 0}}
@@ -306,6 +474,10 @@ def run_case(case):
 def replay(case):
     if case.get("bulk"):
         return bulk_exec(case["kind"], case["state"])
+    if case.get("recovery"):
+        cfg = {k: v for k, v in case.items() if k != "recovery"}
+        return [(f"{s_}/{cfg['fault']}" + ("/workspace-wiped" if cfg.get("wipe") else ""), d_)
+                for s_, d_ in recovery_exec(cfg)[0]]
     return one_exec(case)[0]
 
 
@@ -317,7 +489,10 @@ def run(ctx):
         "default} x {LocalHashFileDB, HashFileDB} x state on/off x another workspace {none, hardlinked, symlinked} "
         "to the same cache; sequence checkout(force), checkout, checkout(relink) (and, without mutation / other "
         "workspace, a further relinking checkout to each third link type); tree A has duplicate and empty "
-        "contents; every execution is non-trivial"
+        "contents; recovery part: the removal of each workspace path the checkout has to remove or replace refused "
+        "(PermissionError) during one forced checkout, each target object missing from the cache during the first "
+        "attempt (restored afterwards; partial workspace kept or wiped by the user), a cache whose objects are writable "
+        "and whose file system refuses chmod - then the same sequence; every execution is non-trivial"
     )
     ctx.bound = {"trees": {k: TREES[k] for k in ("A", "B")}, "existing": L1S, "configured": L2S,
                  "mutations": MUTS, "other_workspace": OTHERS}
@@ -326,11 +501,16 @@ def run(ctx):
         "default link type: reflink is unsupported on this file system, so the expected type is copy",
         "the link record is compared with a fresh get_mtime_and_size() of the resulting workspace",
     ]
-    ctx.require("relinked_to_hardlink", "relinked_to_symlink", "other_workspace_runs", "link_records_checked", "third_link_type_runs", "spelling_or_ignore_runs", "bulk_runs")
+    ctx.require("relinked_to_hardlink", "relinked_to_symlink", "other_workspace_runs", "link_records_checked", "third_link_type_runs", "spelling_or_ignore_runs", "bulk_runs",
+                "recovery_runs", "refused_removals", "failed_first_attempts", "chmod_refusals")
     cs = []
     for kind in ("local", "base"):
         for t0, t1 in (("A", "A"), ("A", "B"), ("B", "A"), ("B", "B"), ("x", "x"), ("x", "y"), ("e", "x"),
                        ("N", "P"), ("P", "P")):
             for l1 in L1S:
                 cs.append({"base": {"kind": kind, "t0": t0, "t1": t1, "l1": l1}})
+    for kind in ("local", "base"):
+        for link in L1S:
+            for st in (False, True):
+                cs.append({"part": "recovery", "kind": kind, "link": link, "state": st})
     ctx.run_cases("run_case", cs, chunksize=1, det=2)
